@@ -93,5 +93,19 @@ def c11():
     return _pkgdoc("1.1")
 
 
-B = {1: c1, 2: c2, 3: c3, 4: c4, 5: c5, 6: c6, 7: c7, 8: c8, 9: c5b, 10: c10, 11: c11}
+def c12():
+    # the json (Quarto) path: dependencies are written into the text as <script> elements and collected again
+    d = deps3()
+    x = tags.div(d[0], tags.span(d[1], "a"), d[2], tags.p(d[3], d[4]), H.head_content(tags.title("T")))
+    old = H.html_dependency_render_mode
+    try:
+        H.html_dependency_render_mode = "json"
+        s = str(x)
+    finally:
+        H.html_dependency_render_mode = old
+    r = H.HTMLTextDocument("<html><head>PH</head><body>" + s + "</body></html>", deps_replace_pattern="PH").render()
+    return dg((s, r["html"], [(e.name, str(e.version)) for e in r["dependencies"]]))
+
+
+B = {1: c1, 2: c2, 3: c3, 4: c4, 5: c5, 6: c6, 7: c7, 8: c8, 9: c5b, 10: c10, 11: c11, 12: c12}
 print(json.dumps([B[c]() for c in order]))
